@@ -743,7 +743,7 @@ impl SysComp {
         reload_rx.set_nonblocking(true).unwrap();
         let reload_port = reload_rx.local_addr().unwrap().port();
         for i in 0..n {
-            let id = (i + 1) as u64;
+            let id = ID_BASE.with(|s| s.get()) + (i + 1) as u64;
             let recv = StdUdp::bind("127.0.0.1:0").unwrap();
             recv.set_nonblocking(true).unwrap();
             // harness-owned receiver: room for a full backlog of MTU-sized datagrams between two captures
@@ -803,7 +803,7 @@ impl SysComp {
             dead: BTreeMap::new(),
             reload_rx,
             reload_port,
-            created: n as u64,
+            created: ID_BASE.with(|s| s.get()) + n as u64,
             removed_rx: Vec::new(),
             weak_link_filter: srtla_core::selection::classifier::WeakLinkFilter::new(),
             link_cc_controller: srtla_core::selection::link_cc::LinkCcController::new(),
@@ -989,6 +989,40 @@ impl Component for SysComp {
             }
             ops = out;
         }
+        // production-width conn ids in every other case: the case's conn ids are shifted by a base >= 2^32 derived from
+        // the case's own seed token (op `init n seed now base`; every op that names a conn id is rewritten).  The real
+        // sender draws its ids as random u64s; with the ids 1, 2, .. of the plain cases a conn id narrowed to 32 bits
+        // (a packed tracker entry, a map keyed by `as u32`, the keepalive's 32-bit telemetry id read back) is invisible.
+        if idx % 2 == 1 {
+            let base = ops.first().and_then(|l| {
+                let t: Vec<&str> = l.split(' ').collect();
+                match t.as_slice() {
+                    ["init", _, seed, _] => seed.parse::<u64>().ok().map(|sd| (((sd % 1_000_000_000) + 1) << 32) | ((sd % 65_521) << 16)),
+                    _ => None,
+                }
+            });
+            if let Some(base) = base {
+                let shift = |c: &str| c.parse::<u64>().ok().map(|c| (c + base).to_string());
+                for l in ops.iter_mut() {
+                    let t: Vec<&str> = l.split(' ').collect();
+                    let new = match t.as_slice() {
+                        ["init", n, seed, now] => Some(format!("init {n} {seed} {now} {base}")),
+                        ["uplink", now, cid, h] => shift(cid).map(|c| format!("uplink {now} {c} {h}")),
+                        ["burst", now, cid, n, h] => shift(cid).map(|c| format!("burst {now} {c} {n} {h}")),
+                        ["failnext", cid] => shift(cid).map(|c| format!("failnext {c}")),
+                        ["failbind", cid] => shift(cid).map(|c| format!("failbind {c}")),
+                        ["failafter", cid, k] => shift(cid).map(|c| format!("failafter {c} {k}")),
+                        ["rxpush", cid, specs] => shift(cid).map(|c| format!("rxpush {c} {specs}")),
+                        ["rxerr", cid] => shift(cid).map(|c| format!("rxerr {c}")),
+                        ["deadsock", cid, on] => shift(cid).map(|c| format!("deadsock {c} {on}")),
+                        _ => None,
+                    };
+                    if let Some(n) = new {
+                        *l = n;
+                    }
+                }
+            }
+        }
         ops
     }
 
@@ -1093,10 +1127,20 @@ impl SysComp {
 
     fn exec_op(&mut self, toks: &[&str], mon: &mut Mon) -> String {
         let op = toks.join(" ");
-        if let ["init", n, seed, now] = toks {
+        if let ["init", n, seed, now] | ["init", n, seed, now, _] = toks {
             let (Ok(n), Ok(seed), Ok(now)) = (n.parse::<usize>(), seed.parse::<u64>(), now.parse::<u64>()) else {
                 return "bad-op".into();
             };
+            // production-width conn ids: `base + i + 1` (the real ids are random u64s; with the ids 1, 2, .. every
+            // narrowing cast of a conn id is the identity)
+            let base = match toks.get(4) {
+                None => 0u64,
+                Some(b) => match b.parse::<u64>() {
+                    Ok(b) if b < u64::MAX - 100_000 => b,
+                    _ => return "bad-op".into(),
+                },
+            };
+            ID_BASE.with(|s| s.set(base));
             self.init(n, seed, now);
             self.g.accepted.clear();
             // remember the seed for probe-id canonicalisation
@@ -1915,7 +1959,7 @@ fn stats_tail(
     if snap.links.len() == w.links.len() && (snap.active_links != active || snap.total_window as i64 != tw || snap.total_in_flight as i64 != tif) {
         fail_link(mon, "stats-link-misreported", &["C14", "C08", "C18", "C20"], format!("tick {now}: aggregates active_links={} total_window={} total_in_flight={}, the links connected and live against the configured timeout give {active} / {tw} / {tif}", snap.active_links, snap.total_window, snap.total_in_flight));
     }
-    if w.links.len() >= 2 && w.links.iter().enumerate().any(|(i, c)| c.conn_id != (i + 1) as u64) { mon.count("hkarm-stats-after-index-shift"); }
+    if w.links.len() >= 2 && w.links.iter().enumerate().any(|(i, c)| c.conn_id != ID_BASE.with(|s| s.get()) + (i + 1) as u64) { mon.count("hkarm-stats-after-index-shift"); }
     match serde_json::to_value(snap) {
         Ok(v) => format!(" | stats{}", canon_stats("", &v)),
         Err(e) => format!(" | stats-unserialisable:{}", e.to_string().replace(' ', "_")),
@@ -2299,6 +2343,7 @@ impl SysComp {
 
 thread_local! {
     static SEED: std::cell::Cell<u64> = const { std::cell::Cell::new(0) };
+    static ID_BASE: std::cell::Cell<u64> = const { std::cell::Cell::new(0) };
 }
 
 #[derive(Clone, Copy, PartialEq)]
